@@ -66,13 +66,25 @@ Definition once_members (ms : list vmember) : list C :=
 (* unique inverted: the members whose value occurs more than once *)
 Definition repeated_member (ms : list vmember) (c : C) : Prop :=
   exists v, In (v, c) ms /\ 1 < occurrences v ms.
-(* distinct: first member of its group = no earlier member has an equal
-   value; in order of first occurrence *)
-Fixpoint firsts (seen : list pyval) (ms : list vmember) : list C :=
+(* the members whose value equals v, in collection order *)
+Definition group_of (v : pyval) (ms : list vmember) : list C :=
+  map snd (filter (fun m => py_eq (fst m) v) ms).
+(* first member of its group = no earlier member has an equal value; in
+   order of first occurrence ([seen]: the values met so far) *)
+Fixpoint first_members (seen : list pyval) (ms : list vmember) : list vmember :=
   match ms with
   | [] => []
-  | (v, c) :: r => if existsb (fun w => py_eq w v) seen then firsts seen r else c :: firsts (v :: seen) r
+  | (v, c) :: r =>
+      if existsb (fun w => py_eq w v) seen then first_members seen r
+      else (v, c) :: first_members (v :: seen) r
   end.
+(* distinct *)
+Definition firsts (seen : list pyval) (ms : list vmember) : list C := map snd (first_members seen ms).
+(* unique inverted, in the order the members are yielded: group by group, the
+   groups in order of first occurrence (as a set: [repeated_member]) *)
+Definition repeated_grouped (ms : list vmember) : list C :=
+  flat_map (fun m => if Nat.ltb 1 (occurrences (fst m) ms) then group_of (fst m) ms else [])
+           (first_members [] ms).
 End Groups.
 
 (* has_child: the hashes having (inverted: lacking) the key *)
